@@ -63,4 +63,20 @@ CHECKS = {
             {"harness": "c01_tcp", "mode": "tls", "flavour": "asan", "runs": {"quick": 1500, "thorough": 120000}, "wall": {"quick": 30, "thorough": 1200}, "seed_off": 2},
         ],
     },
+    "C02": {
+        "level": "exploration",
+        "rule": ("each run = one seeded plan: 1-4 actor threads issuing connect (accepting / refusing / black-holed / unresolvable / slow-resolving / resetting targets), "
+                 "connectViaListener (UDP), close / double close / unknown close, send, flood (backpressure), observe / unobserve, setSessionData, getStats, sleeps; "
+                 "0-4 inbound peers (send+close, RST, hold, half-close); idle/age GC with 1 s interval; stop() after a quiet tail or racing the actors, optionally "
+                 "followed by a second start/stop epoch; TCP and UDP engines; under one seeded schedule with stalls; non-trivial = at least one context switch; "
+                 "distinct = distinct (mode, interleaving hash, abstract state hash)"),
+        "real": ["iora::network::Transport + Transport::Impl", "TcpEngine / UdpEngine", "EventBatchProcessor", "TimerService (connect/handshake timers)"],
+        "stub": COMMON_STUB + ["kernel sockets, epoll, eventfd, timerfd, getaddrinfo (simrt/net.cpp)", "remote peers (scripted)"],
+        "assumptions": ["one user-data object per session (a second setSessionData replaces the first without cleanup by design)",
+                        "gauge compared only inside I/O-thread callbacks, where the session table is quiescent"],
+        "jobs": [
+            {"harness": "c02_lifecycle", "mode": "tcp", "flavour": "asan", "runs": {"quick": 14000, "thorough": 1500000}, "wall": {"quick": 35, "thorough": 1500}, "seed_off": 1},
+            {"harness": "c02_lifecycle", "mode": "udp", "flavour": "asan", "runs": {"quick": 7000, "thorough": 600000}, "wall": {"quick": 30, "thorough": 1200}, "seed_off": 2},
+        ],
+    },
 }
